@@ -191,6 +191,11 @@ func (rn *runner) genHyStartRound(r *vh.Rand) string {
 		}
 		q = append(q, fmt.Sprintf("rtt %d 0", d), "exitss")
 	}
+	if r.Chance(8) && rn.mds < 20000 && rn.s.InSlowStart() {
+		// a large MTU step during slow start: the window (in packets) drops below hybrid slow start's low-window mark
+		rn.mds *= 3
+		q = append([]string{fmt.Sprintf("mds %d", rn.mds)}, q...)
+	}
 	rn.queue = append(rn.queue, q[1:]...)
 	return q[0]
 }
